@@ -420,17 +420,20 @@ def _alarm(signum, frame):
 
 @contextlib.contextmanager
 def _time_limit(seconds):
+    # the limit is CPU time of this process (ITIMER_VIRTUAL), not wall-clock time: on a loaded machine a
+    # call that takes milliseconds of work can be descheduled for seconds, and a wall-clock limit then
+    # reports 'does-not-terminate' for code that is fine (happened once in a thorough run under load 60)
     try:
-        old = signal.signal(signal.SIGALRM, _alarm)
+        old = signal.signal(signal.SIGVTALRM, _alarm)
     except ValueError:          # not in the main thread: no limit
         yield
         return
-    signal.setitimer(signal.ITIMER_REAL, seconds)
+    signal.setitimer(signal.ITIMER_VIRTUAL, seconds)
     try:
         yield
     finally:
-        signal.setitimer(signal.ITIMER_REAL, 0)
-        signal.signal(signal.SIGALRM, old)
+        signal.setitimer(signal.ITIMER_VIRTUAL, 0)
+        signal.signal(signal.SIGVTALRM, old)
 
 
 def _arr_bits(a):
@@ -486,7 +489,7 @@ def _call(case, S, seed, calls_out=None, env=None, ctx=None):
             prefix = [int(case.get('menu', 0))] * 16
         env = choice.Env(prefix)
     rng = RngEnv(env, menu=menu)
-    with installed(rng), _time_limit(3 if f in CLOSED else 120):
+    with installed(rng), _time_limit(20 if f in CLOSED else 300):
         if f.startswith('Model.fit'):
             theta = S['model'].fit(S['data'], **kw)
         elif f in ('fit_select', 'fit_interpolate'):
@@ -955,7 +958,7 @@ def _run_nnls(case, ctx):
               'pattern_idx': None}
         before = _snapshot(Sn)
         try:
-            with _time_limit(3):
+            with _time_limit(20):
                 theta = np.asarray(F.fit_regress_nn(model, Sn['data'], method=method,
                                                     sigma_k=sig_lib, ridge_weight=0, normalize=True))
         except DoesNotTerminate as e:
